@@ -15,13 +15,14 @@ EXPLANATION = ("Deductive: _mix_by_weight_pairs (1-3 components) and _mix_by_vol
 
 
 def units(tier):
-    return (M.U_MIX_WEIGHT + M.U_MIX_VOLUME + M.U_BY_WEIGHT + M.U_BY_VOLUME +
+    return (M.U_MIX_WEIGHT + M.U_MIX_VOLUME + M.U_BY_WEIGHT + M.U_BY_VOLUME + M.U_MIX_WRAPPERS +
             [F.L_SUM_HOMOGENEOUS, F.L_SUM_ADDITIVE, F.L_SUM_SUPPORT, F.L_CONCAT, F.U_RMUL, F.U_IADD, G.L_TOKENS])
 
 
 def runner_tasks(tier):
     return [{"module": "c11", "task": "pairs", "kind": "bounded", "clause": "mix_by_weight / mix_by_volume calls"},
-            {"module": "c11", "task": "strings", "kind": "bounded", "clause": "string forms, units, nesting, repeated groups"}]
+            {"module": "c11", "task": "strings", "kind": "bounded", "clause": "string forms, units, nesting, repeated groups"},
+            {"module": "stateful", "task": "C11", "name": "stateful", "kind": "bounded", "clause": "series of mixtures from the same component objects; '( mixture )@dn'"}]
 
 
 REPLAY = {"module": "c11", "task": "replay"}
